@@ -16,6 +16,11 @@ theorem callerPanic_fire (v : Variant) {s s' : S} {l : Label} (hrec : Gen.Shutdo
     · cases h
   | cancel => simp only [fire, Option.some.injEq] at h; subst h; rfl
   | fatal => simp only [fire, Option.some.injEq] at h; subst h; rfl
+  | giveUp =>
+    simp only [fire] at h
+    split at h
+    · simp only [Option.some.injEq] at h; subst h; rfl
+    · cases h
   | post e => cases e <;> simp only [fire, postEv, Option.some.injEq, reduceCtorEq] at h <;> first | (subst h; rfl) | cases h
   | begin =>
     simp only [fire] at h
